@@ -1,5 +1,5 @@
 (* Properties/C11.v — C11: services merge calendar.txt and calendar_dates.txt correctly. *)
-From GV Require Import Base.Prelude Base.Sort Model.Realtime Model.Static Proofs.StaticProofs Proofs.JournalProofs.
+From GV Require Import Base.Prelude Base.Sort Model.Realtime Model.Static Proofs.StaticProofs Proofs.JournalProofs Proofs.ServiceProofs.
 From Coq Require Import Permutation.
 
 (* for every calendar.txt and calendar_dates.txt whatsoever, every date oracle and zone: each service's start..end range covers
@@ -33,3 +33,24 @@ Proof.
   eexists. split; [apply alookup_aset_same|]. destruct (alookup sid m); cbn; auto.
 Qed.
 Print Assumptions C11_added_in_file_order.
+
+(* ---- the whole statement, for every calendar.txt and calendar_dates.txt whatsoever: what is stored under a service id is
+   determined by that id's own rows only - its LAST valid calendar row if any, then its valid type-1 / type-2 exception rows in
+   file order, each appending its date and stretching the range ([apply_exc]); a service with exceptions only starts from
+   all-false weekdays and the range [d, d] of its first exception ---- *)
+Theorem C11_service_of_id : forall di zone sid h1 rows1 h2 rows2,
+  has_columns h1 (["start_date"; "end_date"; "service_id"] ++ day_cols) = true -> has_columns h2 ["service_id"; "date"; "exception_type"] = true ->
+  alookup sid (parse_calendar_dates di zone (parse_calendar di zone [] h1 rows1) h2 rows2) =
+  fold_left (fun cur x => Some (apply_exc sid cur x)) (own_exceptions di zone sid h2 rows2)
+            (fold_left (fun _ s => Some s) (own_calendar di zone sid h1 rows1) None).
+Proof. exact service_of_id. Qed.
+Print Assumptions C11_service_of_id.
+(* the added dates are exactly the type-1 dates in file order, the removed dates the type-2 ones *)
+Theorem C11_exception_lists : forall sid xs cur,
+  match fold_left (fun cur x => Some (apply_exc sid cur x)) xs cur with
+  | Some s => sv_added s = match cur with Some c => sv_added c | None => [] end ++ map fst (filter snd xs) /\
+              sv_removed s = match cur with Some c => sv_removed c | None => [] end ++ map fst (filter (fun x => negb (snd x)) xs)
+  | None => cur = None /\ xs = []
+  end.
+Proof. intros sid xs cur. apply (exceptions_lists (fun _ _ => None) EmptyString). Qed.
+Print Assumptions C11_exception_lists.
